@@ -17,7 +17,7 @@ RULE = (
     "(delete, duplicate, adjacent swap, block move, splice of another system's block, field mutation biased to the "
     "extremes the views compute with: 1F09 countdown 0000/FFFF, 7FFF/31FF temps, FF/7F/EF percents, zone idx 0B/0F, "
     "0418 idx, 3220 ids), eavesdropping on/off, discovery off (or on against a silent ether), and 1-6 operation points "
-    "(views | snapshot | snapshot+restore | snapshot during restore, include_expired on/off) anywhere in the history - in a fifth of "
+    "(views | snapshot | snapshot+restore | snapshot during restore | restore cancelled by the caller after 3-18 loop turns, include_expired on/off) anywhere in the history - in a fifth of "
     "the cases also before the gateway is started - plus all views at the end. "
     "Non-trivial = >= 1 mutation and >= 1 mid-history operation point; distinct by the whole history."
 )
@@ -71,7 +71,7 @@ def explore(job: dict) -> dict:
         n = len(h["frames"])
         ops = []
         for _ in range(draw(st.integers(1, 6))):
-            ops.append({"at": draw(st.integers(0, n)), "kind": draw(st.sampled_from(("views", "views", "snapshot", "restore", "snapshot-during-restore"))),
+            ops.append({"at": draw(st.integers(0, n)), "kind": draw(st.sampled_from(("views", "views", "snapshot", "restore", "snapshot-during-restore", "restore-cancelled"))),
                         "include_expired": draw(st.booleans()), "hops": draw(st.integers(1, 6))})
         return {"frames": h["frames"], "system": h["system"], "mutations": h["mutations"], "eavesdrop": draw(st.booleans()),
                 "discovery": draw(st.integers(0, 2)) == 0, "gap": draw(st.sampled_from((0.01, 0.05, 1.0))),
